@@ -178,8 +178,8 @@ func vStepSingleObserver(rel bool, pickMax int) {
 }
 func VerifC08_SingleObserverPlain()  { vStepSingleObserver(false, 3) }
 func VerifC08_SingleObserverRel()    { vStepSingleObserver(true, 3) }
-func VerifC08T_SingleObserverPlain() { vStepSingleObserver(false, 6) }
-func VerifC08T_SingleObserverRel()   { vStepSingleObserver(true, 6) }
+func VerifC08T_SingleObserverPlain() { vNoMul = true; vStepSingleObserver(false, 4) }
+func VerifC08T_SingleObserverRel()   { vNoMul = true; vStepSingleObserver(true, 4) }
 
 func vStepObserved(rel bool, op int) {
 	vMode = 1
